@@ -991,42 +991,50 @@ let rec scan pred0 = function
   then ([], (x :: r))
   else let ba = scan pred0 r in ((x :: (fst ba)), (snd ba))
 
-(** val set_find :
-    ('a1 -> 'a1 -> bool) -> 'a1 -> ('a1, 'a2) term list -> ('a1, 'a2) term
-    option **)
+type ('p, 'c) ins_res =
+| Inserted of ('p, 'c) term list
+| Blocked of ('p, 'c) term list * ('p, 'c) term * ('p, 'c) term list
 
-let set_find comp k l =
-  match snd (scan (fun x -> negb (comp (pole x) k)) l) with
-  | [] -> None
-  | x :: _ -> if comp k (pole x) then None else Some x
-
-(** val set_insert :
+(** val set_insert_res :
     ('a1 -> 'a1 -> bool) -> ('a1, 'a2) term -> ('a1, 'a2) term list -> ('a1,
-    'a2) term list * bool **)
+    'a2) ins_res **)
 
-let set_insert comp t l =
+let set_insert_res comp t l =
   let ba = scan (fun x -> comp (pole t) (pole x)) l in
   (match rev (fst ba) with
-   | [] -> ((t :: l), true)
-   | j :: _ ->
+   | [] -> Inserted (t :: l)
+   | j :: rb ->
      if comp (pole j) (pole t)
-     then ((app (fst ba) (t :: (snd ba))), true)
-     else (l, false))
+     then Inserted (app (fst ba) (t :: (snd ba)))
+     else Blocked ((rev rb), j, (snd ba)))
 
-(** val set_erase :
-    ('a1 -> 'a1 -> bool) -> 'a1 -> ('a1, 'a2) term list -> ('a1, 'a2) term
-    list * ('a1, 'a2) term list **)
-
-let set_erase comp k l =
-  let ba = scan (fun x -> negb (comp (pole x) k)) l in
-  let er = scan (fun x -> comp k (pole x)) (snd ba) in
-  ((app (fst ba) (snd er)), (fst er))
+type final =
+| FinInserted
+| FinNegligible
+| FinFuel
 
 type ('p, 'c) event =
-| EvNew
-| EvRefused
-| EvMerged of ('p, 'c) term list * ('p, 'c) term * bool
-| EvNegligible of ('p, 'c) term list * ('p, 'c) term
+| EvChain of (('p, 'c) term * ('p, 'c) term) list * final
+
+(** val add_term_loop :
+    ('a1 -> 'a1 -> bool) -> ('a2 -> int -> bool) -> ('a2 -> 'a2 -> 'a2) ->
+    int -> ('a1, 'a2) term -> ('a1, 'a2) term list -> ('a1, 'a2) term
+    list * ((('a1, 'a2) term * ('a1, 'a2) term) list * final) **)
+
+let rec add_term_loop comp negl cadd fuel sum l =
+  match set_insert_res comp sum l with
+  | Inserted l' -> (l', ([], FinInserted))
+  | Blocked (b, e, a) ->
+    let reduced = ((pole e), (cadd (residue e) (residue sum))) in
+    let l' = app b a in
+    if negl (residue reduced) (add (length l') (Stdlib.Int.succ 0))
+    then (l', (((e, reduced) :: []), FinNegligible))
+    else ((fun fO fS n -> if n=0 then fO () else fS (n-1))
+            (fun _ -> (l', (((e, reduced) :: []), FinFuel)))
+            (fun f ->
+            let r = add_term_loop comp negl cadd f reduced l' in
+            ((fst r), (((e, reduced) :: (fst (snd r))), (snd (snd r)))))
+            fuel)
 
 (** val add_term :
     ('a1 -> 'a1 -> bool) -> ('a2 -> int -> bool) -> ('a2 -> 'a2 -> 'a2) ->
@@ -1034,17 +1042,8 @@ type ('p, 'c) event =
     'a2) event **)
 
 let add_term comp negl cadd t l =
-  match set_find comp (pole t) l with
-  | Some x ->
-    let sum = ((pole x), (cadd (residue x) (residue t))) in
-    let e = set_erase comp (pole x) l in
-    if negl (residue sum) (Stdlib.Int.succ (length (fst e)))
-    then ((fst e), (EvNegligible ((snd e), sum)))
-    else let r = set_insert comp sum (fst e) in
-         ((fst r), (EvMerged ((snd e), sum, (snd r))))
-  | None ->
-    let r = set_insert comp t l in
-    ((fst r), (if snd r then EvNew else EvRefused))
+  let r = add_term_loop comp negl cadd (length l) t l in
+  ((fst r), (EvChain ((fst (snd r)), (snd (snd r)))))
 
 (** val add_terms :
     ('a1 -> 'a1 -> bool) -> ('a2 -> int -> bool) -> ('a2 -> 'a2 -> 'a2) ->
